@@ -318,6 +318,10 @@ pub fn gen_red(seed: u64, tier: &str) -> Vec<String> {
     let mut out = Out { lines: vec![], next_id: 0 };
     header(&mut out.lines);
     let mut case = 0usize;
+    // C08: does the tree keep values of the kind type? (own tree, own kind type; no case of its own needed)
+    out.lines.push("case 0".into());
+    out.lines.push("kindstamp".into());
+    case += 1;
     let bes: Vec<&str> = backends().into_iter().filter(|b| !b.ends_with("ref")).collect();
     let max = if tier == "thorough" { 5 } else { 4 };
     let trees = small_red_trees(max);
@@ -378,6 +382,9 @@ pub fn gen_red(seed: u64, tier: &str) -> Vec<String> {
                         }
                     }
                     out.lines.push(format!("chiter e{} {} next fold", sim.eid(x), kind));
+                    for nf in [0usize, 1, 2] {
+                        out.lines.push(format!("chback e{} {} {}", sim.eid(x), kind, nf));
+                    }
                     for k in kids.iter() {
                         sim.reg(*k, &mut out);
                     }
